@@ -134,7 +134,7 @@ def check_multi(prog, xdata, seed, tol=1e-8):
     Identity: sum_r <xbar_r, v_r>_d = sum_k <ybar_k, F_k'(x) v>_d.  Returns (ok, worst, detail)."""
     D, P = xdata.shape[:2]
     used = sorted(set(r for ins in prog for r in ins[1] if r in PR.PRELUDE))
-    spare = [r for r in ('V1', 'S1', 'M1', 'V0') if r not in used][0]
+    spare = [r for r in ('V1', 'S1', 'M1', 'V0', 'S0', 'M0', 'T1', 'T0') if r not in used][0]
     names = used + [spare]
     X = UTPM(np.array(xdata, copy=True))
     base = dict((r, np.array(PR.PRELUDE[r](X).data, copy=True)) for r in names)
